@@ -1,15 +1,871 @@
 package instr
 
-import "fmt"
+import (
+	"bytes"
+	"fmt"
+	"go/ast"
+	"go/format"
+	"go/importer"
+	"go/parser"
+	"go/token"
+	"go/types"
+	"io"
+	"os"
+	"os/exec"
+	"path/filepath"
+	"strconv"
+	"strings"
+)
+
+const (
+	wharfMod    = "github.com/itchio/wharf"
+	vschedPath  = wharfMod + "/zzverif/vsched"
+	vsyncPath   = wharfMod + "/zzverif/vsync"
+	vschedIdent = "vsched"
+)
 
 // Options selects what the scheduler instrumentation rewrites.
 type Options struct {
-	Packages     []string
+	// Packages: directories relative to the repository root.
+	Packages []string
+	// VisibleCalls: "os." (package-qualified prefix) or ".GetWriter" (method name).
 	VisibleCalls []string
-	ScaleCaps    bool
+	// ScaleCaps rewrites make(chan T, K) with literal K > 16 to use vsched.ScaleCap.
+	ScaleCaps bool
+	// SplitRMW: names of variables whose x++ / x += e is split at a scheduling point.
+	SplitRMW []string
+	// NoMapOrder leaves range-over-map loops alone.
+	NoMapOrder bool
 }
 
-// Instrument rewrites the named packages for the controlled scheduler.
+// Instrument rewrites the named packages for the controlled scheduler and adds
+// the scheduler runtime as virtual packages of the wharf module.
 func Instrument(ov *Overlay, repo, verifRoot string, opt Options) error {
-	return fmt.Errorf("not implemented yet")
+	// runtime packages
+	for _, rt := range []struct{ src, dst string }{{"engine/vsched", "zzverif/vsched"}, {"engine/vsync", "zzverif/vsync"}} {
+		ents, err := os.ReadDir(filepath.Join(verifRoot, rt.src))
+		if err != nil {
+			return err
+		}
+		for _, e := range ents {
+			if !strings.HasSuffix(e.Name(), ".go") || strings.HasSuffix(e.Name(), "_test.go") {
+				continue
+			}
+			b, err := os.ReadFile(filepath.Join(verifRoot, rt.src, e.Name()))
+			if err != nil {
+				return err
+			}
+			if err := ov.Put(filepath.Join(repo, rt.dst, e.Name()), b); err != nil {
+				return err
+			}
+		}
+	}
+	exports, err := exportData(repo, opt.Packages)
+	if err != nil {
+		return err
+	}
+	for _, pkg := range opt.Packages {
+		if err := instrumentPackage(ov, repo, pkg, exports, opt); err != nil {
+			return fmt.Errorf("%s: %w", pkg, err)
+		}
+	}
+	return nil
+}
+
+// exportData asks the go command for the export data files of all
+// dependencies of the packages (built into the cache if needed).
+func exportData(repo string, pkgs []string) (map[string]string, error) {
+	args := []string{"list", "-export", "-deps", "-f", "{{.ImportPath}}={{.Export}}"}
+	for _, p := range pkgs {
+		args = append(args, "./"+p)
+	}
+	cmd := exec.Command("go", args...)
+	cmd.Dir = repo
+	var stderr bytes.Buffer
+	cmd.Stderr = &stderr
+	out, err := cmd.Output()
+	if err != nil {
+		return nil, fmt.Errorf("go list -export: %v\n%s", err, stderr.String())
+	}
+	m := map[string]string{}
+	for _, line := range strings.Split(string(out), "\n") {
+		if i := strings.IndexByte(line, '='); i > 0 && i < len(line)-1 {
+			m[line[:i]] = line[i+1:]
+		}
+	}
+	return m, nil
+}
+
+type rewriter struct {
+	fset     *token.FileSet
+	info     *types.Info
+	opt      Options
+	file     *ast.File
+	fname    string
+	used     bool // vsched import needed
+	errs     []string
+	rmw      map[string]bool
+	ioName   string
+	ctxName  string
+	syncSpec *ast.ImportSpec
+}
+
+func instrumentPackage(ov *Overlay, repo, pkg string, exports map[string]string, opt Options) error {
+	dir := filepath.Join(repo, pkg)
+	ents, err := os.ReadDir(dir)
+	if err != nil {
+		return err
+	}
+	fset := token.NewFileSet()
+	var files []*ast.File
+	var names []string
+	skip := map[string]bool{}
+	for _, e := range ents {
+		n := e.Name()
+		if !strings.HasSuffix(n, ".go") || strings.HasSuffix(n, "_test.go") {
+			continue
+		}
+		path := filepath.Join(dir, n)
+		src, err := ov.Current(path)
+		if strings.HasSuffix(n, ".pb.go") {
+			// generated code: parsed for type checking, never rewritten
+			skip[path] = true
+		}
+		if err != nil {
+			return err
+		}
+		f, err := parser.ParseFile(fset, path, src, parser.ParseComments|parser.SkipObjectResolution)
+		if err != nil {
+			return err
+		}
+		files = append(files, f)
+		names = append(names, path)
+	}
+	imp := importer.ForCompiler(fset, "gc", func(path string) (io.ReadCloser, error) {
+		f, ok := exports[path]
+		if !ok || f == "" {
+			return nil, fmt.Errorf("no export data for %s", path)
+		}
+		return os.Open(f)
+	})
+	info := &types.Info{Types: map[ast.Expr]types.TypeAndValue{}, Uses: map[*ast.Ident]types.Object{}, Defs: map[*ast.Ident]types.Object{}}
+	conf := types.Config{Importer: imp, Error: func(err error) {}}
+	if _, err := conf.Check(wharfMod+"/"+pkg, fset, files, info); err != nil {
+		return fmt.Errorf("type check: %w", err)
+	}
+	for i, f := range files {
+		if skip[names[i]] {
+			continue
+		}
+		rw := &rewriter{fset: fset, info: info, opt: opt, file: f, fname: names[i], rmw: map[string]bool{}}
+		for _, v := range opt.SplitRMW {
+			rw.rmw[v] = true
+		}
+		changed := rw.rewriteFile()
+		if len(rw.errs) > 0 {
+			return fmt.Errorf("%s: %s", names[i], strings.Join(rw.errs, "; "))
+		}
+		if !changed {
+			continue
+		}
+		// comments are positioned by offset and would land inside rewritten
+		// expressions: keep only those before the package clause (build tags)
+		var keep []*ast.CommentGroup
+		for _, cg := range f.Comments {
+			if cg.End() < f.Package {
+				keep = append(keep, cg)
+			}
+		}
+		f.Comments = keep
+		var buf bytes.Buffer
+		if err := format.Node(&buf, fset, f); err != nil {
+			return fmt.Errorf("%s: print: %w", names[i], err)
+		}
+		if err := ov.Put(names[i], buf.Bytes()); err != nil {
+			return err
+		}
+	}
+	return nil
+}
+
+func (rw *rewriter) errorf(n ast.Node, format string, args ...any) {
+	rw.errs = append(rw.errs, fmt.Sprintf("%s: %s", rw.fset.Position(n.Pos()), fmt.Sprintf(format, args...)))
+}
+
+func (rw *rewriter) vs(name string) ast.Expr {
+	rw.used = true
+	return &ast.SelectorExpr{X: ast.NewIdent(vschedIdent), Sel: ast.NewIdent(name)}
+}
+
+func (rw *rewriter) call(name string, args ...ast.Expr) *ast.CallExpr {
+	return &ast.CallExpr{Fun: rw.vs(name), Args: args}
+}
+
+func (rw *rewriter) typeOf(e ast.Expr) types.Type {
+	if tv, ok := rw.info.Types[e]; ok {
+		return tv.Type
+	}
+	return nil
+}
+
+func (rw *rewriter) isChan(e ast.Expr) (*types.Chan, bool) {
+	t := rw.typeOf(e)
+	if t == nil {
+		return nil, false
+	}
+	c, ok := t.Underlying().(*types.Chan)
+	return c, ok
+}
+
+func (rw *rewriter) isDoneChan(e ast.Expr) bool {
+	c, ok := rw.isChan(e)
+	if !ok || c.Dir() != types.RecvOnly {
+		return false
+	}
+	st, ok := c.Elem().Underlying().(*types.Struct)
+	return ok && st.NumFields() == 0
+}
+
+func (rw *rewriter) isBuiltin(id *ast.Ident, name string) bool {
+	if id.Name != name {
+		return false
+	}
+	_, ok := rw.info.Uses[id].(*types.Builtin)
+	return ok
+}
+
+func (rw *rewriter) pkgOf(id *ast.Ident) string {
+	if pn, ok := rw.info.Uses[id].(*types.PkgName); ok {
+		return pn.Imported().Path()
+	}
+	return ""
+}
+
+// pure reports whether re-evaluating e is harmless.
+func pure(e ast.Expr) bool {
+	switch v := e.(type) {
+	case *ast.Ident:
+		return true
+	case *ast.SelectorExpr:
+		return pure(v.X)
+	case *ast.IndexExpr:
+		return pure(v.X) && pure(v.Index)
+	case *ast.ParenExpr:
+		return pure(v.X)
+	case *ast.BasicLit:
+		return true
+	case *ast.CallExpr:
+		// ctx.Done() and similar niladic getters
+		if len(v.Args) == 0 {
+			if s, ok := v.Fun.(*ast.SelectorExpr); ok && s.Sel.Name == "Done" {
+				return pure(s.X)
+			}
+		}
+	}
+	return false
+}
+
+func (rw *rewriter) rewriteFile() bool {
+	f := rw.file
+	// imports
+	for _, is := range f.Imports {
+		p, _ := strconv.Unquote(is.Path.Value)
+		switch p {
+		case "sync":
+			is.Path.Value = strconv.Quote(vsyncPath)
+			if is.Name == nil {
+				is.Name = ast.NewIdent("sync")
+			}
+			rw.syncSpec = is
+		}
+	}
+	changed := rw.syncSpec != nil
+	// statements and expressions
+	for _, d := range f.Decls {
+		if fd, ok := d.(*ast.FuncDecl); ok && fd.Body != nil {
+			rw.block(fd.Body)
+		}
+		if gd, ok := d.(*ast.GenDecl); ok {
+			for _, sp := range gd.Specs {
+				if vs, ok := sp.(*ast.ValueSpec); ok {
+					for i := range vs.Values {
+						vs.Values[i] = rw.expr(vs.Values[i])
+					}
+					if vs.Type != nil {
+						vs.Type = rw.expr(vs.Type)
+					}
+				}
+				if ts, ok := sp.(*ast.TypeSpec); ok {
+					ts.Type = rw.expr(ts.Type)
+				}
+			}
+		}
+		if fd, ok := d.(*ast.FuncDecl); ok {
+			rw.fieldList(fd.Type.Params)
+			rw.fieldList(fd.Type.Results)
+			rw.fieldList(fd.Recv)
+		}
+	}
+	if rw.used {
+		changed = true
+		addImport(f, vschedIdent, vschedPath)
+	}
+	if changed {
+		dropUnusedImports(f)
+	}
+	return changed
+}
+
+func (rw *rewriter) fieldList(fl *ast.FieldList) {
+	if fl == nil {
+		return
+	}
+	for _, fld := range fl.List {
+		fld.Type = rw.expr(fld.Type)
+	}
+}
+
+func addImport(f *ast.File, name, path string) {
+	spec := &ast.ImportSpec{Name: ast.NewIdent(name), Path: &ast.BasicLit{Kind: token.STRING, Value: strconv.Quote(path)}}
+	gd := &ast.GenDecl{Tok: token.IMPORT, Specs: []ast.Spec{spec}}
+	f.Decls = append([]ast.Decl{gd}, f.Decls...)
+	f.Imports = append(f.Imports, spec)
+}
+
+func dropUnusedImports(f *ast.File) {
+	used := map[string]bool{}
+	ast.Inspect(f, func(n ast.Node) bool {
+		if s, ok := n.(*ast.SelectorExpr); ok {
+			if id, ok := s.X.(*ast.Ident); ok {
+				used[id.Name] = true
+			}
+		}
+		return true
+	})
+	for _, d := range f.Decls {
+		gd, ok := d.(*ast.GenDecl)
+		if !ok || gd.Tok != token.IMPORT {
+			continue
+		}
+		var keep []ast.Spec
+		for _, sp := range gd.Specs {
+			is := sp.(*ast.ImportSpec)
+			p, _ := strconv.Unquote(is.Path.Value)
+			name := filepath.Base(p)
+			if is.Name != nil {
+				name = is.Name.Name
+			}
+			if name == "_" || name == "." || used[name] {
+				keep = append(keep, sp)
+				continue
+			}
+			// only drop imports we may have orphaned
+			if p == "io" || p == "context" || p == vsyncPath || p == "sync" {
+				continue
+			}
+			keep = append(keep, sp)
+		}
+		gd.Specs = keep
+	}
+	// remove empty import decls
+	var decls []ast.Decl
+	for _, d := range f.Decls {
+		if gd, ok := d.(*ast.GenDecl); ok && gd.Tok == token.IMPORT && len(gd.Specs) == 0 {
+			continue
+		}
+		decls = append(decls, d)
+	}
+	f.Decls = decls
+}
+
+// ---- statements -------------------------------------------------------------
+
+func (rw *rewriter) block(b *ast.BlockStmt) {
+	if b == nil {
+		return
+	}
+	b.List = rw.stmts(b.List)
+}
+
+func (rw *rewriter) stmts(list []ast.Stmt) []ast.Stmt {
+	var out []ast.Stmt
+	for _, s := range list {
+		pre, ns := rw.stmt(s)
+		out = append(out, pre...)
+		out = append(out, ns)
+	}
+	return out
+}
+
+// visiblePoint returns a vsched.Point statement if s (shallowly) contains a
+// call matching the visible-call list.
+func (rw *rewriter) visiblePoint(nodes ...ast.Node) []ast.Stmt {
+	if len(rw.opt.VisibleCalls) == 0 {
+		return nil
+	}
+	var label string
+	var first ast.Node
+	for _, n := range nodes {
+		if n == nil || (reflectNil(n)) {
+			continue
+		}
+		if first == nil {
+			first = n
+		}
+		ast.Inspect(n, func(m ast.Node) bool {
+			if label != "" {
+				return false
+			}
+			switch v := m.(type) {
+			case *ast.FuncLit:
+				return false
+			case *ast.BlockStmt:
+				return false
+			case *ast.CallExpr:
+				if name := rw.matchVisible(v); name != "" {
+					label = name
+					return false
+				}
+			}
+			return true
+		})
+	}
+	if label == "" {
+		return nil
+	}
+	pos := rw.fset.Position(first.Pos())
+	lit := &ast.BasicLit{Kind: token.STRING, Value: strconv.Quote(fmt.Sprintf("fs:%s@%s:%d", label, filepath.Base(pos.Filename), pos.Line))}
+	return []ast.Stmt{&ast.ExprStmt{X: rw.call("Point", lit)}}
+}
+
+func reflectNil(n ast.Node) bool {
+	switch v := n.(type) {
+	case ast.Expr:
+		return v == nil
+	case ast.Stmt:
+		return v == nil
+	}
+	return false
+}
+
+func (rw *rewriter) matchVisible(c *ast.CallExpr) string {
+	sel, ok := c.Fun.(*ast.SelectorExpr)
+	if !ok {
+		return ""
+	}
+	if id, ok := sel.X.(*ast.Ident); ok {
+		if p := rw.pkgOf(id); p != "" {
+			q := filepath.Base(p) + "." + sel.Sel.Name
+			for _, v := range rw.opt.VisibleCalls {
+				if !strings.HasPrefix(v, ".") && strings.HasPrefix(q, v) {
+					return q
+				}
+			}
+			return ""
+		}
+	}
+	for _, v := range rw.opt.VisibleCalls {
+		if strings.HasPrefix(v, ".") && v[1:] == sel.Sel.Name {
+			return v
+		}
+	}
+	return ""
+}
+
+func (rw *rewriter) stmt(s ast.Stmt) (pre []ast.Stmt, out ast.Stmt) {
+	switch v := s.(type) {
+	case nil:
+		return nil, s
+	case *ast.BlockStmt:
+		rw.block(v)
+	case *ast.LabeledStmt:
+		p, ns := rw.stmt(v.Stmt)
+		v.Stmt = ns
+		return p, v
+	case *ast.ExprStmt:
+		pre = rw.visiblePoint(v.X)
+		v.X = rw.expr(v.X)
+	case *ast.SendStmt:
+		return nil, &ast.ExprStmt{X: rw.call("Send", rw.expr(v.Chan), rw.expr(v.Value))}
+	case *ast.IncDecStmt:
+		if id, ok := v.X.(*ast.Ident); ok && rw.rmw[id.Name] {
+			return rw.splitRMW(id, v.Tok == token.INC)
+		}
+		v.X = rw.expr(v.X)
+	case *ast.AssignStmt:
+		pre = rw.visiblePoint(v)
+		// v, ok := <-ch
+		if len(v.Rhs) == 1 && len(v.Lhs) == 2 {
+			if u, ok := v.Rhs[0].(*ast.UnaryExpr); ok && u.Op == token.ARROW {
+				v.Rhs[0] = rw.call("Recv2", rw.expr(u.X))
+				return pre, v
+			}
+		}
+		for i := range v.Rhs {
+			v.Rhs[i] = rw.expr(v.Rhs[i])
+		}
+		for i := range v.Lhs {
+			v.Lhs[i] = rw.expr(v.Lhs[i])
+		}
+	case *ast.GoStmt:
+		return nil, rw.goStmt(v)
+	case *ast.DeferStmt:
+		v.Call = rw.expr(v.Call).(*ast.CallExpr)
+	case *ast.ReturnStmt:
+		pre = rw.visiblePoint(v)
+		for i := range v.Results {
+			v.Results[i] = rw.expr(v.Results[i])
+		}
+	case *ast.IfStmt:
+		pre = rw.visiblePoint(v.Init, v.Cond)
+		if v.Init != nil {
+			p, ns := rw.stmt(v.Init)
+			if len(p) > 0 {
+				pre = append(pre, p...)
+			}
+			v.Init = ns
+		}
+		v.Cond = rw.expr(v.Cond)
+		rw.block(v.Body)
+		if v.Else != nil {
+			_, ns := rw.stmt(v.Else)
+			v.Else = ns
+		}
+	case *ast.ForStmt:
+		if v.Init != nil {
+			_, v.Init = rw.stmt(v.Init)
+		}
+		if v.Cond != nil {
+			v.Cond = rw.expr(v.Cond)
+		}
+		if v.Post != nil {
+			_, v.Post = rw.stmt(v.Post)
+		}
+		rw.block(v.Body)
+	case *ast.RangeStmt:
+		return rw.rangeStmt(v)
+	case *ast.SwitchStmt:
+		pre = rw.visiblePoint(v.Init, v.Tag)
+		if v.Init != nil {
+			_, v.Init = rw.stmt(v.Init)
+		}
+		if v.Tag != nil {
+			v.Tag = rw.expr(v.Tag)
+		}
+		rw.clauses(v.Body)
+	case *ast.TypeSwitchStmt:
+		if v.Init != nil {
+			_, v.Init = rw.stmt(v.Init)
+		}
+		_, v.Assign = rw.stmt(v.Assign)
+		rw.clauses(v.Body)
+	case *ast.SelectStmt:
+		return nil, rw.selectStmt(v)
+	case *ast.DeclStmt:
+		if gd, ok := v.Decl.(*ast.GenDecl); ok {
+			for _, sp := range gd.Specs {
+				if vs, ok := sp.(*ast.ValueSpec); ok {
+					if len(vs.Values) == 1 && len(vs.Names) == 2 {
+						if u, ok := vs.Values[0].(*ast.UnaryExpr); ok && u.Op == token.ARROW {
+							vs.Values[0] = rw.call("Recv2", rw.expr(u.X))
+							continue
+						}
+					}
+					for i := range vs.Values {
+						vs.Values[i] = rw.expr(vs.Values[i])
+					}
+					if vs.Type != nil {
+						vs.Type = rw.expr(vs.Type)
+					}
+				}
+			}
+		}
+	}
+	return pre, s
+}
+
+func (rw *rewriter) clauses(b *ast.BlockStmt) {
+	for _, c := range b.List {
+		switch cc := c.(type) {
+		case *ast.CaseClause:
+			for i := range cc.List {
+				cc.List[i] = rw.expr(cc.List[i])
+			}
+			cc.Body = rw.stmts(cc.Body)
+		}
+	}
+}
+
+func (rw *rewriter) splitRMW(id *ast.Ident, inc bool) ([]ast.Stmt, ast.Stmt) {
+	tmp := ast.NewIdent("vsched_rmw_" + id.Name)
+	op := token.ADD
+	if !inc {
+		op = token.SUB
+	}
+	lit := &ast.BasicLit{Kind: token.STRING, Value: strconv.Quote("rmw:" + id.Name)}
+	return []ast.Stmt{
+			&ast.AssignStmt{Lhs: []ast.Expr{tmp}, Tok: token.DEFINE, Rhs: []ast.Expr{ast.NewIdent(id.Name)}},
+			&ast.ExprStmt{X: rw.call("Point", lit)},
+		}, &ast.AssignStmt{Lhs: []ast.Expr{ast.NewIdent(id.Name)}, Tok: token.ASSIGN, Rhs: []ast.Expr{
+			&ast.BinaryExpr{X: tmp, Op: op, Y: &ast.BasicLit{Kind: token.INT, Value: "1"}}}}
+}
+
+func (rw *rewriter) goStmt(g *ast.GoStmt) ast.Stmt {
+	call := g.Call
+	if call.Ellipsis.IsValid() {
+		rw.errorf(g, "go statement with variadic spread is not supported")
+		return g
+	}
+	if len(call.Args) > 6 {
+		rw.errorf(g, "go statement with more than 6 arguments is not supported")
+		return g
+	}
+	if sig, ok := rw.typeOf(call.Fun).(*types.Signature); ok && sig.Results().Len() > 0 {
+		rw.errorf(g, "go statement on a function with results is not supported")
+		return g
+	}
+	fun := rw.expr(call.Fun)
+	args := []ast.Expr{fun}
+	for _, a := range call.Args {
+		args = append(args, rw.expr(a))
+	}
+	return &ast.ExprStmt{X: rw.call(fmt.Sprintf("Go%d", len(call.Args)), args...)}
+}
+
+func (rw *rewriter) rangeStmt(r *ast.RangeStmt) ([]ast.Stmt, ast.Stmt) {
+	t := rw.typeOf(r.X)
+	if t == nil {
+		rw.block(r.Body)
+		return nil, r
+	}
+	switch u := t.Underlying().(type) {
+	case *types.Chan:
+		if !pure(r.X) {
+			rw.errorf(r, "range over a non-trivial channel expression is not supported")
+			return nil, r
+		}
+		rw.block(r.Body)
+		okID := ast.NewIdent("vsched_ok")
+		var head []ast.Stmt
+		recv := rw.call("Recv2", rw.expr(r.X))
+		if r.Key == nil {
+			head = append(head, &ast.AssignStmt{Lhs: []ast.Expr{ast.NewIdent("_"), okID}, Tok: token.DEFINE, Rhs: []ast.Expr{recv}})
+		} else if r.Tok == token.DEFINE {
+			head = append(head, &ast.AssignStmt{Lhs: []ast.Expr{r.Key, okID}, Tok: token.DEFINE, Rhs: []ast.Expr{recv}})
+		} else {
+			tmp := ast.NewIdent("vsched_v")
+			head = append(head, &ast.AssignStmt{Lhs: []ast.Expr{tmp, okID}, Tok: token.DEFINE, Rhs: []ast.Expr{recv}})
+			head = append(head, &ast.AssignStmt{Lhs: []ast.Expr{r.Key}, Tok: token.ASSIGN, Rhs: []ast.Expr{tmp}})
+		}
+		brk := &ast.IfStmt{Cond: &ast.UnaryExpr{Op: token.NOT, X: okID}, Body: &ast.BlockStmt{List: []ast.Stmt{&ast.BranchStmt{Tok: token.BREAK}}}}
+		// insert the break right after the receive
+		body := append([]ast.Stmt{head[0], brk}, head[1:]...)
+		body = append(body, r.Body.List...)
+		return nil, &ast.ForStmt{Body: &ast.BlockStmt{List: body}}
+	case *types.Map:
+		rw.block(r.Body)
+		if rw.opt.NoMapOrder || !orderedKey(u.Key()) || !pure(r.X) || r.Key == nil {
+			return nil, r
+		}
+		if id, ok := r.Key.(*ast.Ident); ok && id.Name == "_" {
+			return nil, r
+		}
+		if r.Tok != token.DEFINE {
+			return nil, r
+		}
+		// for _, k := range vsched.MapKeys(m) { v, ok := m[k]; if !ok { continue }; body }
+		var head []ast.Stmt
+		if r.Value != nil {
+			if id, ok := r.Value.(*ast.Ident); !ok || id.Name != "_" {
+				okID := ast.NewIdent("vsched_present")
+				head = append(head,
+					&ast.AssignStmt{Lhs: []ast.Expr{r.Value, okID}, Tok: token.DEFINE, Rhs: []ast.Expr{&ast.IndexExpr{X: r.X, Index: r.Key}}},
+					&ast.IfStmt{Cond: &ast.UnaryExpr{Op: token.NOT, X: okID}, Body: &ast.BlockStmt{List: []ast.Stmt{&ast.BranchStmt{Tok: token.CONTINUE}}}})
+			}
+		}
+		r.Body.List = append(head, r.Body.List...)
+		r.Value = r.Key
+		r.Key = ast.NewIdent("_")
+		r.X = rw.call("MapKeys", r.X)
+		return nil, r
+	}
+	r.X = rw.expr(r.X)
+	rw.block(r.Body)
+	return nil, r
+}
+
+func orderedKey(t types.Type) bool {
+	b, ok := t.Underlying().(*types.Basic)
+	if !ok {
+		return false
+	}
+	return b.Info()&(types.IsInteger|types.IsFloat|types.IsString) != 0
+}
+
+func (rw *rewriter) selectStmt(s *ast.SelectStmt) ast.Stmt {
+	selID := ast.NewIdent("vsched_sel")
+	hasDefault := false
+	var cases []ast.Expr
+	var clauses []ast.Stmt
+	idx := 0
+	for _, c := range s.Body.List {
+		cc := c.(*ast.CommClause)
+		body := rw.stmts(cc.Body)
+		if cc.Comm == nil {
+			hasDefault = true
+			clauses = append(clauses, &ast.CaseClause{List: nil, Body: body})
+			continue
+		}
+		lit := &ast.BasicLit{Kind: token.INT, Value: strconv.Itoa(idx)}
+		idx++
+		switch comm := cc.Comm.(type) {
+		case *ast.SendStmt:
+			cases = append(cases, rw.call("CaseSend", rw.expr(comm.Chan), rw.expr(comm.Value)))
+		case *ast.ExprStmt:
+			u, ok := comm.X.(*ast.UnaryExpr)
+			if !ok || u.Op != token.ARROW {
+				rw.errorf(cc, "unsupported select case")
+				return s
+			}
+			cases = append(cases, rw.caseRecv(u.X))
+		case *ast.AssignStmt:
+			u, ok := comm.Rhs[0].(*ast.UnaryExpr)
+			if !ok || u.Op != token.ARROW {
+				rw.errorf(cc, "unsupported select case")
+				return s
+			}
+			if !pure(u.X) {
+				rw.errorf(cc, "select receive from a non-trivial channel expression with assignment is not supported")
+				return s
+			}
+			cases = append(cases, rw.caseRecv(u.X))
+			fn := "RecvVal"
+			if len(comm.Lhs) == 2 {
+				fn = "RecvVal2"
+			}
+			as := &ast.AssignStmt{Lhs: comm.Lhs, Tok: comm.Tok, Rhs: []ast.Expr{rw.call(fn, rw.expr(u.X), selID)}}
+			body = append([]ast.Stmt{as}, body...)
+			// keep "declared and not used" errors away for `case v := <-ch` with unused v: not possible in valid Go
+		}
+		clauses = append(clauses, &ast.CaseClause{List: []ast.Expr{lit}, Body: body})
+	}
+	hd := ast.NewIdent("false")
+	if hasDefault {
+		hd = ast.NewIdent("true")
+	}
+	args := append([]ast.Expr{hd}, cases...)
+	return &ast.SwitchStmt{
+		Init: &ast.AssignStmt{Lhs: []ast.Expr{selID}, Tok: token.DEFINE, Rhs: []ast.Expr{rw.call("Select", args...)}},
+		Tag:  &ast.SelectorExpr{X: selID, Sel: ast.NewIdent("Index")},
+		Body: &ast.BlockStmt{List: clauses},
+	}
+}
+
+func (rw *rewriter) caseRecv(ch ast.Expr) ast.Expr {
+	if rw.isDoneChan(ch) {
+		return rw.call("CaseDone", rw.expr(ch))
+	}
+	return rw.call("CaseRecv", rw.expr(ch))
+}
+
+// ---- expressions ------------------------------------------------------------
+
+func (rw *rewriter) expr(e ast.Expr) ast.Expr {
+	switch v := e.(type) {
+	case nil:
+		return nil
+	case *ast.UnaryExpr:
+		if v.Op == token.ARROW {
+			if rw.isDoneChan(v.X) {
+				return rw.call("RecvDone", rw.expr(v.X))
+			}
+			return rw.call("Recv", rw.expr(v.X))
+		}
+		v.X = rw.expr(v.X)
+	case *ast.BinaryExpr:
+		v.X = rw.expr(v.X)
+		v.Y = rw.expr(v.Y)
+	case *ast.ParenExpr:
+		v.X = rw.expr(v.X)
+	case *ast.StarExpr:
+		v.X = rw.expr(v.X)
+	case *ast.ArrayType:
+		v.Elt = rw.expr(v.Elt)
+	case *ast.MapType:
+		v.Key = rw.expr(v.Key)
+		v.Value = rw.expr(v.Value)
+	case *ast.ChanType:
+		v.Value = rw.expr(v.Value)
+	case *ast.StructType:
+		rw.fieldList(v.Fields)
+	case *ast.FuncType:
+		rw.fieldList(v.Params)
+		rw.fieldList(v.Results)
+	case *ast.SelectorExpr:
+		if id, ok := v.X.(*ast.Ident); ok {
+			switch rw.pkgOf(id) {
+			case "io":
+				switch v.Sel.Name {
+				case "Pipe", "PipeReader", "PipeWriter":
+					return rw.vs(v.Sel.Name)
+				}
+			case "context":
+				if v.Sel.Name == "WithCancel" {
+					return rw.vs("WithCancel")
+				}
+			}
+			return v
+		}
+		v.X = rw.expr(v.X)
+	case *ast.IndexExpr:
+		v.X = rw.expr(v.X)
+		v.Index = rw.expr(v.Index)
+	case *ast.SliceExpr:
+		v.X = rw.expr(v.X)
+		v.Low, v.High, v.Max = rw.expr(v.Low), rw.expr(v.High), rw.expr(v.Max)
+	case *ast.TypeAssertExpr:
+		v.X = rw.expr(v.X)
+	case *ast.KeyValueExpr:
+		v.Value = rw.expr(v.Value)
+	case *ast.CompositeLit:
+		if v.Type != nil {
+			v.Type = rw.expr(v.Type)
+		}
+		for i := range v.Elts {
+			v.Elts[i] = rw.expr(v.Elts[i])
+		}
+	case *ast.FuncLit:
+		rw.fieldList(v.Type.Params)
+		rw.fieldList(v.Type.Results)
+		rw.block(v.Body)
+	case *ast.CallExpr:
+		if id, ok := v.Fun.(*ast.Ident); ok {
+			if rw.isBuiltin(id, "close") && len(v.Args) == 1 {
+				return rw.call("Close", rw.expr(v.Args[0]))
+			}
+			if (rw.isBuiltin(id, "len") || rw.isBuiltin(id, "cap")) && len(v.Args) == 1 {
+				if _, ok := rw.isChan(v.Args[0]); ok {
+					rw.errorf(v, "len/cap of a channel is not supported")
+				}
+			}
+			if rw.isBuiltin(id, "make") && len(v.Args) >= 1 {
+				if ct, ok := v.Args[0].(*ast.ChanType); ok && ct.Dir == ast.SEND|ast.RECV {
+					var n ast.Expr = &ast.BasicLit{Kind: token.INT, Value: "0"}
+					if len(v.Args) == 2 {
+						n = rw.expr(v.Args[1])
+						if lit, ok := v.Args[1].(*ast.BasicLit); ok && rw.opt.ScaleCaps && lit.Kind == token.INT {
+							n = rw.call("ScaleCap", lit)
+						}
+					}
+					rw.used = true
+					return &ast.CallExpr{Fun: &ast.IndexExpr{X: rw.vs("Make"), Index: rw.expr(ct.Value)}, Args: []ast.Expr{n}}
+				}
+			}
+		}
+		v.Fun = rw.expr(v.Fun)
+		for i := range v.Args {
+			v.Args[i] = rw.expr(v.Args[i])
+		}
+	}
+	return e
 }
